@@ -179,7 +179,7 @@ func runC12(t *testing.T, sc SrvScenario, keep bool) *core.Result {
 	kept := res.Violations[:0]
 	for _, v := range res.Violations {
 		switch v.Kind {
-		case "torn-response", "failed-reload-visible", "followed-stale-path", "unknown-generation":
+		case "torn-response", "failed-reload-visible", "followed-stale-path", "unknown-generation", "valid-reload-failed":
 			res.Probe("c05_matter_ignored")
 		default:
 			kept = append(kept, v)
